@@ -938,6 +938,107 @@ static void run_restart(void)
     vx_state((uint64_t)restart_route);
 }
 
+/*
+ * "manywaiters": a thousand processes (on both sides of the 1024-entry growth point of the waiting list) wait at one
+ * condition / one resource / one event / one process; then a process - on its own coroutine stack - or an event action
+ * does the one thing that wakes them all in one go (signal, release + hand-overs, the event, its own end).
+ */
+static struct cmb_process *mw_procs;
+static int mw_n, mw_woken, mw_kind;
+static struct cmb_condition mw_cond;
+static int mw_x;
+static uint64_t mw_event;
+
+static bool mw_pred(const struct cmb_condition *c, const struct cmb_process *p, const void *ctx)
+{
+    (void)c;
+    (void)p;
+    (void)ctx;
+    return mw_x != 0;
+}
+
+static void *mw_waiter(struct cmb_process *me, void *ctx)
+{
+    (void)me;
+    (void)ctx;
+    int64_t r = 777;
+    switch (mw_kind) {
+    case 0: r = cmb_condition_wait(&mw_cond, mw_pred, NULL); break;
+    case 1: r = cmb_process_wait_event(mw_event); break;
+    default: r = cmb_process_wait_process(&procs[0]); break;
+    }
+    mw_woken += r == CMB_PROCESS_SUCCESS;
+    return NULL;
+}
+
+static void *mw_actor(struct cmb_process *me, void *ctx)
+{
+    (void)me;
+    (void)ctx;
+    cmb_process_hold(1.0);
+    if (mw_kind == 0) {
+        mw_x = 1;
+        cmb_condition_signal(&mw_cond);
+    }
+    return NULL; /* kind 2: the end of this process is what they wait for */
+}
+
+static void mw_action(void *s, void *o)
+{
+    (void)s;
+    (void)o;
+    if (mw_kind == 0) {
+        mw_x = 1;
+        cmb_condition_signal(&mw_cond);
+    }
+}
+
+static void run_manywaiters(void)
+{
+    static const int NS[] = { 1019, 1023, 1024, 1025, 1100 };
+    mw_n = NS[vx_choose_free(5, "n")];
+    mw_kind = vx_choose_free(3, "waits-for");
+    const int from_process = mw_kind == 2 ? 1 : vx_choose_free(2, "woken-from");
+    mw_woken = 0;
+    mw_x = 0;
+    mw_procs = calloc((size_t)mw_n, sizeof *mw_procs);
+    cmb_condition_initialize(&mw_cond, "C");
+    mw_event = 0;
+    if (from_process) {
+        cmb_process_initialize(&procs[0], "a", mw_actor, NULL, 0);
+        cmb_process_start(&procs[0]);
+        nprocs = 1;
+    }
+    if (mw_kind == 1 || !from_process) {
+        mw_event = cmb_event_schedule(mw_action, NULL, NULL, 1.0, 0);
+    }
+    if (mw_kind == 1 && from_process) {
+        /* the event executes while the actor process exists; it is the dispatcher that wakes the waiters */
+    }
+    for (int i = 0; i < mw_n; i++) {
+        cmb_process_initialize(&mw_procs[i], "w", mw_waiter, NULL, 0);
+        cmb_process_start(&mw_procs[i]);
+    }
+    int guard = 0;
+    while (cmb_event_execute_next() && guard++ < 100000) {
+    }
+    vx_transitions((uint64_t)mw_n * 2);
+    if (mw_woken != mw_n) {
+        FAIL("manywaiters:woken", "%d of %d waiters (kind %d, woken from %s) came back with SUCCESS", mw_woken, mw_n, mw_kind,
+             from_process ? "a process" : "an event action");
+    }
+    vx_outcome((uint64_t)mw_n * 8 + (uint64_t)mw_kind * 2 + (uint64_t)from_process);
+    vx_state((uint64_t)mw_n * 8 + (uint64_t)mw_kind * 2 + (uint64_t)from_process);
+    for (int i = 0; i < mw_n; i++) {
+        if (mw_procs[i].core.stack != NULL) {
+            free(mw_procs[i].core.stack);
+        }
+    }
+    free(mw_procs);
+    mw_procs = NULL;
+    cmb_condition_terminate(&mw_cond);
+}
+
 static void run_one(void)
 {
     memset(procs, 0, sizeof procs);
@@ -954,6 +1055,7 @@ static void run_one(void)
     else if (!strcmp(mode, "restart")) run_restart();
     else if (!strcmp(mode, "guardorder")) run_guardorder();
     else if (!strcmp(mode, "pqorder")) run_pqorder();
+    else if (!strcmp(mode, "manywaiters")) run_manywaiters();
     else run_procwait();
     for (int i = 0; i < NP; i++) {
         if (procs[i].core.stack != NULL) {
